@@ -133,7 +133,7 @@ func c18FeatureTypeConsts() ([][2]string, error) {
 }
 
 type c18FactoryDump struct {
-	Fns      []*c18FnInfo           // sorted by name
+	Fns      []*c18FnInfo        // sorted by name
 	ByFeat   map[string][]string // feature type -> function names in factory order
 	Feats    []string            // feature types with a non-empty registration, sorted
 	Unknown  []string            // feature type constants for which the factory panics
@@ -297,9 +297,11 @@ func c18ItemTypes(p reflect.Type) []reflect.Type {
 // c18ExpectedFilterFields: which FilterType field the DATA MODEL provides for the
 // selectors resp. elements of a function with payload type P — decided from Go
 // type names only, never from the eebus tags (the tags are what is checked):
-//   selectors: the field of type *<P>SelectorsType          (P = payload type name without "Type")
-//   elements : the field of type *<P>ElementsType, or, for a list payload, the
-//              field of type *<I>ElementsType for the item type I of its list
+//
+//	selectors: the field of type *<P>SelectorsType          (P = payload type name without "Type")
+//	elements : the field of type *<P>ElementsType, or, for a list payload, the
+//	           field of type *<I>ElementsType for the item type I of its list
+//
 // -1 where the data model defines none.
 func c18ExpectedFilterFields(p reflect.Type, ff []c18FilterField) (sel, el int) {
 	sel, el = -1, -1
